@@ -41,6 +41,7 @@ func runC17(c *core.Ctx) core.Meta {
 	c.Load(sbmPkg)
 	c.BuildSSA()
 	p := NewPkgInfo(c, sbmPkg)
+	checkNoCompactionWhileRanging(c, "R17.14", 1, p)
 	prov := core.NewProv(c)
 
 	// R17.1 one response per request
